@@ -26,7 +26,7 @@ def value_sets(ref, typ, n_closed=2, n_digit=2, n_names=2, search=True, aliases=
             if not vals:
                 vals = [c for c in NAMES[:n_names] if ref._rx[typ][i].fullmatch(c)]
         if search:
-            for s in ("*", ">"):
+            for s in (("*",) if search == "star-only" else ("*", ">")):
                 if ref._rx[typ][i].fullmatch(s):
                     vals = vals + [s]
         out.append(vals)
